@@ -121,3 +121,22 @@ impl Handler<RaftApplyDataRequest> for SequenceDbManager {
         Ok(RaftApplyDataResponse::None)
     }
 }
+
+/// Verification hook (only compiled with `--cfg rnacos_verif`): read-only dump of the
+/// next-free counters of a running SequenceDbManager.
+#[cfg(rnacos_verif)]
+pub mod verif {
+    use super::*;
+
+    #[derive(Message)]
+    #[rtype(result = "Vec<(Arc<String>, u64)>")]
+    pub struct VerifSeqDbDump;
+
+    impl Handler<VerifSeqDbDump> for SequenceDbManager {
+        type Result = Vec<(Arc<String>, u64)>;
+
+        fn handle(&mut self, _msg: VerifSeqDbDump, _ctx: &mut Self::Context) -> Self::Result {
+            self.seq_map.iter().map(|(k, v)| (k.clone(), *v)).collect()
+        }
+    }
+}
